@@ -1,8 +1,8 @@
 (* C10 — Chord labels: total parsing, sound encoding, split/join round trip.
    Statements only; every proof is [exact <lemma>] and is followed by Print Assumptions. *)
-From Coq Require Import String ZArith List Bool.
+From Coq Require Import String ZArith List Bool Permutation.
 From ME Require Import Model.Prelude Model.Regex Model.ChordParse Gen.ChordRe Gen.ChordTables
-  Proofs.RegexLang Proofs.RegexEquiv Proofs.ChordRegex Proofs.ChordQualities Proofs.ChordSound Proofs.ChordTotal.
+  Proofs.RegexLang Proofs.RegexEquiv Proofs.ChordRegex Proofs.ChordQualities Proofs.ChordSound Proofs.ChordTotal Proofs.ChordRoundTrip.
 Import ListNotations.
 Open Scope Z_scope.
 
@@ -59,3 +59,15 @@ Print Assumptions C10_redux_as_documented.
 Theorem C10_grammar_shorthands_without_quality_row : unencodable_shorthands = [ s2l "aug7"%string; s2l "maj11"%string ].
 Proof. exact shorthands_known. Qed.
 Print Assumptions C10_grammar_shorthands_without_quality_row.
+(* joining the parts returned by split reproduces a label with the identical encoding (any iteration order of the degree set);
+   stated for labels other than N and X, like the encoding clause of the property *)
+Theorem C10_split_join_roundtrip : forall (s : str) (strict : bool) rt q ds b,
+  split s false = Ok (rt, q, ds, b) -> seqb s NO_CHORD = false -> seqb s X_CHORD = false ->
+  forall ds', Permutation ds ds' ->
+  exists s', join rt q ds' b = Ok s' /\ encode s' false strict = encode s false strict.
+Proof. exact split_join_roundtrip. Qed.
+Print Assumptions C10_split_join_roundtrip.
+(* the X sentinel is outside that clause: split treats "X" as a root and join cannot re-validate "X:maj" *)
+Theorem C10_split_join_X_is_excluded : split X_CHORD false = Ok (X_CHORD, s_maj, [], s_one) /\ join X_CHORD s_maj [] s_one = Raise InvalidChord.
+Proof. exact split_join_X_counterexample. Qed.
+Print Assumptions C10_split_join_X_is_excluded.
